@@ -179,15 +179,44 @@ S7bB(p, k) ==
       ops |-> << <<"add", 1>>, <<"publish">>, <<"drain">>, <<"adv", 1500>>, <<"drain">> >> ]
 
 -----------------------------------------------------------------------------
+(* S6: transfer lengths at and around what the wire format can carry (a seekable fake stream of that length) *)
+S6Lens == << "ffffffffff", "10000000000", "10000000001", "ffffffffffff", "1000000000000", "ffffffff", "100000000" >>
+S6P == Schemes \X (1..Len(S6Lens)) \X BOOLEAN
+\* symbol size and block length chosen so that the number of blocks never limits the object before the width of the
+\* transfer-length field does; packets are only read when a block is small enough to be read from the fake stream
+S6EB(sc) == CASE sc = 129 -> <<1024, 64>> [] sc = 1 -> <<65535, 257>> [] sc = 5 -> <<65535, 255>> [] OTHER -> <<65535, 65535>>
+S6B(p, k) ==
+    [ fam |-> "S6",
+      cfg |-> [scheme |-> 0, E |-> BigE, B |-> 8, interleave |-> 1, queues |-> << <<0, 1>> >>],
+      objs |-> << [clen |-> 16, src |-> "stream", fake_len_hex |-> S6Lens[p[2]], md5 |-> FALSE,
+                   oti |-> Oti(p[1], S6EB(p[1])[1], S6EB(p[1])[2], IF p[1] = 0 THEN 0 ELSE 1, p[3])] >>,
+      ops |-> << <<"add", 1>>, <<"publish">> >> \o (IF p[1] \in {129, 1} THEN << <<"readn", 3>> >> ELSE <<>>) ]
+
+\* S8: the limits of the codecs: a Raptor block has at most 8192 source symbols (RFC 5053), a RaptorQ block at most
+\* 56403 (RFC 6330), a Reed-Solomon GF(2^8) block at most 255 encoding symbols (RFC 5510); one symbol below, at and
+\* above each limit, one and two blocks
+S8Cases == << <<1, 8191>>, <<1, 8192>>, <<1, 8193>>, <<1, 65535>>, <<6, 56402>>, <<6, 56403>>, <<6, 56404>>, <<6, 65535>>,
+              <<5, 254>>, <<5, 255>>, <<129, 254>>, <<129, 255>>, <<129, 256>>, <<129, 65535>>, <<0, 65535>> >>
+S8P == (1..Len(S8Cases)) \X {1, 2} \X {0, 1} \X BOOLEAN
+S8B(p, k) ==
+    LET sc == S8Cases[p[1]][1]  B == S8Cases[p[1]][2]  par == IF sc = 0 THEN 0 ELSE 1 IN
+    [ fam |-> "S8",
+      cfg |-> [scheme |-> 0, E |-> BigE, B |-> 8, interleave |-> 1, queues |-> << <<0, 1>> >>],
+      \* p[2] blocks of B symbols of 1 byte, minus p[3] bytes
+      objs |-> << [clen |-> B * p[2] - p[3], md5 |-> FALSE, oti |-> Oti(sc, 1, B, par, p[4])] >>,
+      \* encoding a RaptorQ block of 56403 symbols takes minutes: such objects are only added
+      ops |-> << <<"add", 1>>, <<"publish">> >> \o (IF sc = 6 THEN <<>> ELSE << <<"readn", 4>> >>) ]
+
+-----------------------------------------------------------------------------
 (* The parameter spaces are cartesian products (enumerated lazily by TLC, no set of big records is   *)
 (* ever built); the dependent parameter k is a second variable.                                      *)
 Params == CASE Family = "S1" -> S1P [] Family = "S3" -> S3P [] Family = "S4" -> S4P [] Family = "S4x" -> S4xP
-            [] Family = "S5" -> S5P [] Family = "S2" -> S2Cfgs [] Family = "S7" -> S7P [] Family = "S7b" -> S7bP [] OTHER -> {}
+            [] Family = "S5" -> S5P [] Family = "S2" -> S2Cfgs [] Family = "S7" -> S7P [] Family = "S7b" -> S7bP [] Family = "S6" -> S6P [] Family = "S8" -> S8P [] OTHER -> {}
 KRange(p) == CASE Family = "S1" -> S1K(p) [] Family = "S3" -> S3K(p) [] Family = "S4" -> S4K(p)
                [] Family = "S5" -> S5K(p) [] Family = "S7" -> S7K(p) [] Family = "S7b" -> {1, 3, 1000} [] OTHER -> {0}
 Build(p, k) == CASE Family = "S1" -> S1B(p, k) [] Family = "S3" -> S3B(p, k) [] Family = "S4" -> S4B(p, k)
                  [] Family = "S4x" -> S4xB(p, k) [] Family = "S5" -> S5B(p, k) [] Family = "S7" -> S7B(p, k)
-                 [] Family = "S7b" -> S7bB(p, k)
+                 [] Family = "S7b" -> S7bB(p, k) [] Family = "S6" -> S6B(p, k) [] Family = "S8" -> S8B(p, k)
 
 VARIABLES b, k, h
 Init == b \in Params /\ k \in KRange(b) /\ h = <<>>
